@@ -190,7 +190,7 @@ def translator_fresh():
 def correspondence(rng, tier):
     from GTC import persistence as P
     V = validators(); t_start = time.time()
-    n_arch = 16 if tier == 'quick' else 150
+    n_arch = 16 if tier == 'quick' else 110
     n_corrupt = 128 if tier == 'quick' else 2000
     n_regex = 150 if tier == 'quick' else 2000
     cells_per_archive = 4 if tier == 'quick' else 16
@@ -265,6 +265,12 @@ def correspondence(rng, tier):
             if not content_same and not is_known(dict(info, options=o)):
                 mism.append(dict(info, kind='reload', options=o, why='reload', detail='content differs / not readable',
                                  outcome=str(obs)[:200]))
+            if oi % 8 == ai % 8:
+                pattern = HISTORIES[(ai + oi // 8) % len(HISTORIES)]
+                dist['second_generation_json'] = dist.get('second_generation_json', 0) + 1; steps += 1
+                r2 = gen2_check(aseed, ctx, G.LABELS, 'json', o, G.JSON_GRID[(oi + 1) % ncell], pattern, ar, 900 + ai)
+                if r2 is not None and not is_known(dict(info, options=o, **r2)):
+                    mism.append(dict(info, kind='json-gen2-' + r2['why'], options=o, **r2))
             if (oi + ai * 5) % (ncell // cells_per_archive) == 0:
                 covered.add(oi); dist['print_cases'] += 1
                 defs.append('Definition TX%d : string := %s.' % (oi, G.cstring(text)))
@@ -475,6 +481,71 @@ def xml_check_cell(ar, tags, o, base_obs, k):
                     'diff_keys': diff_keys(obs, base_obs), 'f32': f32_of(ar), 'written_as': 'xml'}
     return known_schema
 
+HISTORIES = ['same', 'other', 'same+other', 'other+same', 'different+same', 'twice']
+
+def history_dumps(pattern, fmt, o, o_other):
+    """the dumps a first-generation archive goes through before it is copied: 'same' = the format and options of the cell
+    under test, 'other' = the other format (default options), 'different' = the same format with other options"""
+    kw = (lambda c: G.json_kwargs(c)) if fmt == 'json' else (lambda c: G.xml_kwargs(c))
+    other = 'xml' if fmt == 'json' else 'json'
+    step = {'same': (fmt, kw(o)), 'other': (other, {}), 'different': (fmt, kw(o_other)), 'twice': (fmt, kw(o))}
+    names = ['twice', 'twice'] if pattern == 'twice' else pattern.split('+')
+    return [step[n] for n in names]
+
+def second_generation(seed, ctx, labels, history):
+    """an archive WITH A HISTORY: the first half of the entries is archived and dumped (history), the archive is copied with
+    Archive.copy, the remaining entries are added to the copy.  Same content as build_archive(seed) gives directly."""
+    from GTC import persistence as P, archive as garchive
+    ar1, desc, items = G.build_archive(random.Random(seed), ctx, labels=labels, first='half')
+    rest = desc.pop('_rest')
+    for fmt, kw in history:
+        try:
+            P.dumps_json(ar1, **kw) if fmt == 'json' else P.dumps_xml(ar1, **kw)
+        except Exception:
+            pass                      # (failures of first-generation dumps are the business of the ordinary cells)
+    ar2 = garchive.Archive.copy(ar1)
+    if rest and 'self' not in rest and seed % 2:
+        ar2.add(**rest)
+    else:
+        for k, v in rest.items():
+            ar2[k] = v
+    mark_f32(ar2, items)
+    return ar2, desc, items, len(rest)
+
+def dump_text(ar, fmt, o):
+    from GTC import persistence as P
+    try:
+        return P.dumps_json(ar, **G.json_kwargs(o)) if fmt == 'json' else P.dumps_xml(ar, **G.xml_kwargs(o))
+    except Exception as ex:
+        return ('EXN', type(ex).__name__, str(ex)[:120])
+
+def gen2_check(seed, ctx, labels, fmt, o, o_other, pattern, fresh, k):
+    """the option cell o on a second-generation archive: its document must be the one the fresh archive of the same content
+    gives, and it must validate and read back with EVERY entry.  -> None or a failure dict"""
+    V = validators()
+    ar2, desc, items, nrest = second_generation(seed, ctx, labels, history_dumps(pattern, fmt, o, o_other))
+    tags = desc['tags']
+    where = {'generation': 2, 'history': pattern, 'added_after_copy': nrest}
+    fresh = G.build_archive(random.Random(seed), ctx, labels=labels, first='all')[0]      # same entries, same order, no history
+    out2 = dump_text(ar2, fmt, o); outf = dump_text(fresh, fmt, o)
+    if out2 != outf:
+        return dict(where, why='document-depends-on-history',
+                    detail='second-generation %s vs fresh %s' % (str(out2)[:60] if isinstance(out2, tuple) else 'document of %d chars' % len(out2),
+                                                                  str(outf)[:60] if isinstance(outf, tuple) else 'document of %d chars' % len(outf)))
+    if isinstance(out2, tuple):
+        return None                   # both writers refuse in the same way: judged by the ordinary cell
+    orig_obs = observe_objs(items)
+    if fmt == 'xml':
+        r = xml_check_cell(ar2, tags, o, orig_obs, k)
+        return None if r is None else dict(where, **r)
+    doc = json.loads(out2)
+    if not V['json'].is_valid(doc):
+        return dict(where, why='schema', errors=[e.message[:200] for e in V['json'].iter_errors(doc)][:3])
+    _, obs = load_json_observed(out2, tags, k)
+    if isinstance(obs, str) or obs != orig_obs:
+        return dict(where, why='reload', outcome=str(obs)[:200])
+    return None
+
 def write_sequence(ar, tags, order, orig_obs, k, refs):
     """the SAME Archive object written several times in the given order of formats (default options);
     every document must validate, read back with the original content and be identical to the
@@ -546,12 +617,13 @@ def prefix_check(ar, tags, orig_obs, prefix, expect, k):
 
 def xml_correspondence(rng, tier, dist, samples):
     from GTC import persistence as P
-    n_arch = 16 if tier == 'quick' else 60
+    n_arch = 16 if tier == 'quick' else 45
     per = 48 if tier == 'quick' else len(G.XML_GRID)
     mism = []; steps = 0; covered = set()
     dist.update({'xml_archives': 0, 'xml_documents': 0, 'xml_options_covered': 0, 'sequences': 0,
                  'xml_finite_dof_above_1e5': 0})
     ncell = len(G.XML_GRID); grid_start = rng.randrange(ncell)
+    g2_stride = 4 if tier == 'quick' else 13          # thorough: 60 archives x 1440 cells, keep the tier under 15 min
     assert math.gcd(97, ncell) == 1
     for ai in range(n_arch):
         ctx = rng.choice([7, 11, rng.getrandbits(127) + 1]); aseed = rng.getrandbits(48)
@@ -581,6 +653,13 @@ def xml_correspondence(rng, tier, dist, samples):
                 h = dist.setdefault('known_class_hits', {})
                 key = 'C09-7' if G.xml_expected_failure(o, r['why'], bool(r.get('nonascii_bytes'))) else ('C09-9' if r.get('diff_keys') else 'other-known')
                 h[key] = h.get(key, 0) + 1
+            if j % g2_stride == g2_stride - 1:
+                # the same cell on an archive with a history (dumped, copied, extended)
+                pattern = HISTORIES[(ai + j // g2_stride) % len(HISTORIES)]
+                dist['second_generation_xml'] = dist.get('second_generation_xml', 0) + 1; steps += 1
+                r2 = gen2_check(aseed, ctx, labels, 'xml', o, G.XML_GRID[(oi + 1) % ncell], pattern, ar, 700 + ai)
+                if r2 is not None and not is_known(dict(info, options=o, **r2)):
+                    mism.append(dict(info, kind='xml-gen2-' + r2['why'], options=o, **r2))
         # the same Archive object written in several formats in sequence, both orders (twins from the same seed)
         refs = {}
         for order in SEQUENCES:
@@ -629,6 +708,8 @@ def xml_model_groups(rng, tier, dist):
 # ------------------------------------------------------------------ known findings
 def is_known(f):
     """failing inputs explained by the listed known findings"""
+    if f.get('format') == 'gen2' and isinstance(f.get('options'), dict) and 'cell' in f['options']:
+        f = dict(f, format=f['options']['format'], options=f['options']['cell'])     # judged like the cell it exercises
     # C09-1 (key separator) and C09-3 (prefix) are FIXED findings: nothing is excused for them any more
     if f.get('format') == 'xml' and f.get('why') == 'label-not-xml-char':
         return True
@@ -830,6 +911,10 @@ def check_archive(rng_state_seed, ctx, fmt, o):
         if isinstance(obs, str) or obs != orig_obs:
             return {'why': 'reload', 'outcome': str(obs)[:200]}
         return None
+    if fmt == 'gen2':
+        grid = G.JSON_GRID if o['format'] == 'json' else G.XML_GRID
+        return gen2_check(rng_state_seed, ctx, labels if o['format'] == 'xml' else G.LABELS, o['format'], o['cell'],
+                          grid[(grid.index(o['cell']) + 1) % len(grid)], o['history'], ar, 902)
     if fmt == 'reserved':
         for r in check_reserved(o['kind'])[0]:
             if not is_known(dict(r, format='reserved')):
@@ -852,6 +937,8 @@ def search(rng, tier, broken):
         seed = rng.getrandbits(48); ctx = rng.choice([7, rng.getrandbits(100) + 1])
         pgrid = [{'prefix': q, 'expect': e} for e, l in (('accept', G.GOOD_PREFIXES), ('refuse', G.BAD_PREFIXES), ('either', G.RESERVED_PREFIXES)) for q in l]
         for fmt, grid in (('json', G.JSON_GRID), ('xml', G.XML_GRID), ('sequence', [{'order': q} for q in SEQUENCES]), ('prefix', pgrid),
+                          ('gen2', [{'format': ff, 'cell': rng.choice(G.JSON_GRID if ff == 'json' else G.XML_GRID), 'history': hh}
+                                    for ff in ('xml', 'json') for hh in HISTORIES]),
                           ('reserved', [{'kind': q} for q in ('real', 'complex', 'interm', 'numeric', 'zero', 'numeric32')])):
             for o in rng.sample(grid, min(6, len(grid))):
                 f = {'format': fmt, 'archive_seed': seed, 'ctx': ctx, 'options': o}
